@@ -9,7 +9,8 @@
      in k item            item in top
      f arg n (k item)*n   list(top.filter(items, prereleases=arg))  -> positions and kinds of the returned objects
      str | len | pre | eq output str(top) | len(top) | top.prereleases | top-1 == top
-     eqs k text           top == "text" (k = s) | top == Specifier(text) (k = X); InvalidSpecifier escaping from == ends the run with !E
+     eqs k text           top == "text" (k = s) | top == Specifier(text) (k = X) | top == len(text) (k = n, an int);
+                          InvalidSpecifier escaping from == ends the run with !E
    Override / argument tokens: T F N, and the non-bool values 1 0 (int) S E (non-empty / empty str), read by truthiness as the code does.
    Output: the outputs joined by ';'; a failing construction ends the run with !E (InvalidSpecifier) or !V (ValueError). *)
 From Coq Require Import List NArith Bool String.
@@ -109,7 +110,9 @@ Fixpoint exec (fuel : nat) (stack : list obj) (args : list (list N)) (out : list
       else if seqb op (asc "eqs") then
         match rest, stack with
         | k :: t :: rest', OSet A :: _ =>
-            let r := if seqb k (asc "X") then match Specifier t with Some sp => set_eq_spec A sp | None => None end else set_eq_str A t in
+            let r := if seqb k (asc "X") then match Specifier t with Some sp => set_eq_spec A sp | None => None end
+                     else if seqb k (asc "n") then Some false          (* an object that is neither str, Specifier nor SpecifierSet: NotImplemented -> False *)
+                     else set_eq_str A t in
             match r with
             | Some b => exec fuel' stack rest' (show_bool b :: out)
             | None => bang_E :: out
